@@ -34,7 +34,7 @@ ASSUMPTIONS = [
     "killed runs: the model is rebuilt from the victim's append-only progress log; crash points are statement boundaries",
 ]
 SHARDS = {"quick": 16, "thorough": 16}
-TIMEOUT = {"quick": 1200, "thorough": 14400}
+TIMEOUT = {"quick": 2400, "thorough": 14400}
 MINIMUMS = {
     "quick": {"histories": 300, "runs_checked": 1000, "aborted_runs": 300, "normal_runs": 400, "orphans_invocations": 1000, "crash_points": 40, "exclusivity_rounds": 4, "holder_index_observations": 16, "exclusivity_rounds_staggered": 3, "generate_only_runs": 100, "generate_only_runs_over_a_backup": 15},
     "thorough": {"histories": 8000, "runs_checked": 30000, "aborted_runs": 9000, "normal_runs": 12000, "orphans_invocations": 30000, "crash_points": 200, "exclusivity_rounds": 24},
